@@ -129,3 +129,42 @@ func checkReceiverArgs(c *Ctx, rule string, ev *tmpl.Evaluator) {
 		c.Anchor(rule, "templates › methods with a generator-named receiver and template-named arguments", "none found")
 	}
 }
+
+var rxPkgQualifier = regexp.MustCompile(`⟦\s*\$?\.(Package|PackageAlias)\s*⟧\.⟦\s*pascalize`)
+
+// checkAliasQualifiers: the server imports the package of a tag under `.PackageAlias`, which
+// differs from `.Package` whenever the name collides with an import of the generated file
+// (errors → errorsops, api → apiops …). In code position, an identifier of that package is
+// qualified by the alias; the package name is for messages and paths.
+func checkAliasQualifiers(c *Ctx, rule string, ev *tmpl.Evaluator) {
+	c.Rule(rule, "in the server templates, identifiers of an operation's package are qualified by .PackageAlias in code position (.Package only inside string literals)", 10)
+	for _, name := range ev.F.Names() {
+		t := ev.F.Trees[name]
+		if t == nil || t.Tree == nil || t.Tree.Root == nil || !strings.HasPrefix(t.Asset, "server/") {
+			continue
+		}
+		l := tmpl.Linearise(t)
+		ord := 0
+		for _, m := range rxPkgQualifier.FindAllStringSubmatchIndex(l.Text, -1) {
+			which := l.Text[m[2]:m[3]]
+			lineStart := strings.LastIndexByte(l.Text[:m[0]], '\n') + 1
+			prefix := l.Text[lineStart:m[0]]
+			inString := strings.Count(prefix, `"`)%2 == 1
+			if strings.Contains(prefix, "//") {
+				continue
+			}
+			ord++
+			ok := which == "PackageAlias" || inString
+			eol := strings.IndexByte(l.Text[m[0]:], '\n')
+			if eol < 0 {
+				eol = len(l.Text) - m[0]
+			}
+			snippet := l.Text[m[0] : m[0]+eol]
+			if len(snippet) > 70 {
+				snippet = snippet[:70] + "…"
+			}
+			c.Check(ok, rule, fmt.Sprintf("%s › %s › package qualifier #%d", t.Asset, name, ord), l.Tree.PosStr(l.PosAt(m[0])), "qualified by the import alias",
+				fmt.Sprintf("`%s` qualifies an identifier of the operation's package by the package name: for a tag whose package is imported under another alias (errors → errorsops) the generated file refers to a package it does not import (`undefined: errors.GetAResponder` with --strict-responders)", strings.NewReplacer("⟦", "{{", "⟧", "}}").Replace(snippet)))
+		}
+	}
+}
